@@ -503,7 +503,7 @@ def setup(tier, seed):
         'jobs': jobs,
         'tolerant_jobs': True,
         'min_encoded': 40,
-        'budget_s': 1200 if tier == 'quick' else 3300,
+        'budget_s': 780 if tier == 'quick' else 3300,
         'explanation': 'differential check: the real indicator and a short textbook reference run on the same symbolic candles; z3 proves equality at every '
                        'position where the value is a function of a trailing window (sma, wma, stddev/var via the squared identity, roc, mom, willr, '
                        'donchian, price transforms, bollinger, ema/rsi/macd with the textbook SMA seed) and the recurrence step for Wilder-type smoothers '
